@@ -391,6 +391,14 @@ theorem addStmts_file (ch : Nat → Bool) (ds : List GDecl) :
     simp only [List.mapM_cons, addStmts_is_declEvents] at ih ⊢
     rw [ih]; rfl
 
+/-- **`Mark.fileEvents` is what the source says**: for every file (its line table and positions are
+    irrelevant here) whose declarations are the abstractions of go/ast declarations `ds`, the event
+    list the model folds over is the concatenation, in order, of the translated `addStmts` steps -/
+theorem fileEvents_is_source (ch : Nat → Bool) (f : File) (ds : List GDecl) (hf : f.decls = ds.map abstrD) :
+    (ds.mapM fun d => (unfold Walker.addStmts (.decl d)).map (expandD ch)).map List.flatten = some (fileEvents ch f) := by
+  rw [addStmts_file]
+  simp [fileEvents, hf, List.flatMap_def, List.map_map, Function.comp_def]
+
 /-- non-vacuity: a one-line function body gets the single-line insert AND is walked; a body-less
     declaration and an empty body produce nothing -/
 example : (unfold Walker.addStmts (.decl (.funcDecl (some (4, 4, [.ret 4 14 4 []]))))).map (expandD (fun _ => false))
